@@ -72,7 +72,7 @@ ASSUMPTIONS = [
     "'mirrored accordingly': for a mirror of axis 0 the low/high padding arrays of axis 0 are exchanged and those of axis 1 are reversed (and vice versa)",
     "documented padding semantics (P/arr==spec): padding_low/high_axis0 fill the rows before/after axis 0; padding_low/high_axis1 fill the columns before/after axis 1 and are extended by their first/last value into the corners; None = replicate the edge (for axis 1: of the row-padded array)",
 ]
-MIN_OBLIGATIONS = {"quick": 5000, "thorough": 9000}
+MIN_OBLIGATIONS = {"quick": 4000, "thorough": 9000}
 LEVEL_TEXT = (
     "Deductive proof, for sigma in {1,2} and all design extents, values, padding configurations (16) and singleton-axis positions (3), that the output of the real "
     "GaussianSmoothing2D is affine in the design (linear with edge-replicated padding), leaves constants unchanged, stays within the range of input and padding values "
@@ -702,12 +702,13 @@ def tasks(tier, seed):
     dims = [(2, 3), (4, 2)] if tier == "quick" else [(2, 2), (2, 3), (3, 2), (3, 3), (4, 3), (2, 5), (7, 2), (5, 6)]
     k = 0
     for nx, ny in dims:
-        for combo in ALL_COMBOS:
+        for combo in ALL_COMBOS if tier == "thorough" else HALF_COMBOS if (nx, ny) == dims[0] else HALF_COMBOS[:4]:
             small.append((k % 3, nx, ny, combo))
             k += 1
+    chunk = 8 if tier == "thorough" else 3
     for sg in (1,) if tier == "quick" else (1, 2):
-        for g in range(0, len(small), 8):
-            out[f"E/concrete/sigma{sg}/{g // 8:02d}"] = Task(_end_to_end_concrete(sg, small[g : g + 8]), extra_patch=kpatch, on_exception=_no_exception)
+        for g in range(0, len(small), chunk):
+            out[f"E/concrete/sigma{sg}/{g // chunk:02d}"] = Task(_end_to_end_concrete(sg, small[g : g + chunk]), extra_patch=kpatch, on_exception=_no_exception)
     out["convolve_shim_vs_real_jax"] = Task(_shim_vs_real(seed), modules=[], bounded=True)
     return out
 
